@@ -187,3 +187,32 @@ Fixpoint blk_b2_loop (fuel : nat) (junk : Z -> Z) (body : bytes) (szx : Z) (size
       | _ => [o]
       end
   end.
+
+(* ------------------------------------------------------------------ (E) expiry timers *)
+(* coap_block_check_lg_xmit_timeouts / coap_block_check_lg_crcv_timeouts, client side: the
+   transfer state carries the time of the last progress (lg_xmit->last_sent is set when the next
+   Block1 request is sent; lg_crcv->last_used when a new Block2 block is accepted - the latter
+   since /repo commit b2162dc) and is deleted by the periodic check when
+   last + MAX_TRANSMIT_WAIT <= now. *)
+Inductive blk_tev :=
+| TvProgress (t : Z)      (* a block was sent / accepted at time t *)
+| TvCheck (t : Z).        (* the timeout function ran at time t *)
+
+Definition blk_tev_time (e : blk_tev) : Z := match e with TvProgress t | TvCheck t => t end.
+
+(* (alive, last) after the events; a deleted state stays deleted *)
+Fixpoint blk_timed_run (wait : Z) (alive : bool) (last : Z) (l : list blk_tev) : bool * Z :=
+  match l with
+  | [] => (alive, last)
+  | TvProgress t :: l' => blk_timed_run wait alive (if alive then t else last) l'
+  | TvCheck t :: l' => blk_timed_run wait (alive && negb (last + wait <=? t)) last l'
+  end.
+
+(* the same without the refresh (what the server side does for lg_srcv and its lg_xmit, and
+   what the client did for lg_crcv before b2162dc): only the creation time counts *)
+Fixpoint blk_timed_run_norefresh (wait : Z) (alive : bool) (last : Z) (l : list blk_tev) : bool * Z :=
+  match l with
+  | [] => (alive, last)
+  | TvProgress t :: l' => blk_timed_run_norefresh wait alive last l'
+  | TvCheck t :: l' => blk_timed_run_norefresh wait (alive && negb (last + wait <=? t)) last l'
+  end.
